@@ -92,6 +92,28 @@ def check_relay_chain(rep, ctx):
         rep.add(Query("witness: %s::%s has a forwarding path" % (owner, meth), "witness-hit" if n_fwd else "witness-missed", "%d" % n_fwd, 0, "mirsym"))
 
 
+def check_codec_defaults(rep, ctx):
+    """the bytes on the wire are hyper's business (outside the claim) as long as hyper is used with its defaults: the upstream connection is
+    opened by the plain handshake - any connection option set here (buffer / header-count / read limits, http09, ...) changes which of the
+    host's responses reach the client and is a violation of transparency that the data-flow obligations cannot see"""
+    c = [p for p in ctx.idx.files if re.search(r"hyper_client::build_http_sender::\{closure#0\}$", p)]
+    if len(c) != 1:
+        rep.add(Query("build_http_sender located", "inconclusive", "%d candidates" % len(c), 0, "mirsym", key="C14.codec-defaults"))
+        return
+    eng = ctx.engine(loop_bound=1)
+    eng.auto_inline = ctx.new_function_auto()
+    opts, n = set(), 0
+    for r in eng.explore(c[0]):
+        n += 1
+        for e in r.events:
+            m = re.search(r"http1::Builder(?:<[^>]*>)?::(\w+)$", e.callee) if e.kind in ("call", "await") else None
+            if m and m.group(1) not in ("new", "handshake"):
+                opts.add(m.group(1))
+    rep.functions_encoded.append(c[0])
+    rep.add(Query("upstream connection: opened with hyper's default HTTP/1 options (no limit or parsing option is set)", "holds" if n and not opts else "violated", "options set: %s" % sorted(opts), 0, "mirsym",
+                  key="C14.codec-defaults", reproduced=None))
+
+
 def check(rep, tier, seed):
     ctx = Ctx("agent")
     rep.extra["mir_dump"] = {"cache_hit": ctx.dump.cache_hit, "tree_hash": ctx.dump.hash, "seconds": round(ctx.dump.seconds, 1)}
@@ -103,6 +125,13 @@ def check(rep, tier, seed):
             continue
         n += 1
         relay = p.relays[0]
+        # one request, one upstream send: the obligations below are about THE relayed request; a second send on the same path (a resend
+        # over another connection, a copy taken at some earlier point) would put a request on the wire that they do not cover
+        ups = p.upstream_sends
+        if len(ups) != 1:
+            violated(rep, "path %d: the request is sent upstream exactly once" % p.i, "C14.one-relay", "upstream sends on this path: %s" % [e.callee for e in ups], p)
+        else:
+            rep.add(Query("path %d: the request is sent upstream exactly once" % p.i, "holds", "", 0, "mirsym", key="C14.one-relay"))
         pre = p.events[:p.index(relay)]
 
         def ob(name, ok, key, detail=""):
@@ -143,6 +172,7 @@ def check(rep, tier, seed):
     rep.trusted += ["http / http-body-util / hyper crates", "mirsym", "z3"]
     import e2e
     check_relay_chain(rep, ctx)
+    check_codec_defaults(rep, ctx)
     e2e.confirm(rep, "C14")
     # an operation the check does not know is a violation only if the end-to-end replay confirms it; otherwise undecided (exit 2)
     for q in rep.queries:
